@@ -147,9 +147,8 @@ EnqAfterPrune(C, S, envs, t, single) ==
       full == k > 0 /\ (C.drop # "drop_oldest" \/ k > Cardinality(Q))
       fail(e) == [S |-> S, err |-> e, victims |-> {}]
       VS   == IF full THEN {{}} ELSE VictimSets(S, k)
+      \* an id that is still stored refuses the call - unless that message is one of the victims: then it is replaced
       exists(V) == DupInSeq(ids) \/ \E i \in DOMAIN ids : ids[i] \in DOMAIN M \ V
-      \* batch: memory checks duplicates before evicting, SQLite after
-      existsMaybe(V) == ~single /\ \E i \in DOMAIN ids : ids[i] \in V
       store(V) ==
         LET keep == DOMAIN M \ V
             newIds == SeqRange(ids)
@@ -161,7 +160,7 @@ EnqAfterPrune(C, S, envs, t, single) ==
             err |-> "", victims |-> V]
   IN UNION { (IF full THEN {fail("full")} ELSE {})
              \cup (IF PressureActive(C, M) THEN {fail("pressure")} ELSE {})
-             \cup (IF exists(V) \/ existsMaybe(V) THEN {fail("exists")} ELSE {})
+             \cup (IF exists(V) THEN {fail("exists")} ELSE {})
              \cup (IF ~full /\ ~PressureActive(C, M) /\ ~exists(V) THEN {store(V)} ELSE {})
              : V \in VS }
 
